@@ -1,13 +1,546 @@
 /-
 C03 — Dataset containers keep every element, its order and its input-label pairing.
-(property theorems; work in progress — see the sections below)
+
+Property theorems about `Model/Dataset.lean` (hand-written model of Dataset.h /
+Impl/Dataset.inl / DataView.h, tied to the C++ by the correspondence check
+`checks/c03.py`) and about `Gen/BatchArith.lean` (machine-translated from
+Impl/Dataset.inl on every run by `translate/batch_arith.py`).
+
+Sections
+  A  batch arithmetic (`optimalBatchSizes`, all n, m)            — on the generated definition
+  B  every structural operation of `Data` maps the flat element sequence as documented
+  C  the element iterator: elements(), element(i), reverse iteration and batches() agree
+  D  LabeledData: inputs and labels stay in the same partitioning, pairs are never separated
+  E  arbitrary operation histories
+
+All statements quantify over every element type, element count, batch size and
+partition; nothing is bounded.  Hypotheses of the form `op … = .ok d'` select
+the calls whose C++ preconditions hold (the model returns `.error` otherwise).
 -/
 import SharkVerif.Lemmas.BatchArith
+import SharkVerif.Lemmas.Dataset
 namespace SharkVerif.C03
-open SharkVerif.CheckedNat SharkVerif.Gen.BatchArith SharkVerif.BatchArith
+open SharkVerif.CheckedNat SharkVerif.Gen.BatchArith SharkVerif.BatchArith SharkVerif.Dataset
 
-/-- for n, m > 0 the generated `optimalBatchSizes` stays inside defined arithmetic and returns the closed form -/
+variable {ε ι κ : Type}
+
+/-! ## A. batch arithmetic -/
+
+/-- for n, m > 0 the generated `optimalBatchSizes` stays inside defined arithmetic (no division by
+zero, no size_t wrap-around) and returns the closed form `obsSpec` -/
 theorem optimalBatchSizes_defined {n m : Nat} (hn : 0 < n) (hm : 0 < m) :
     optimalBatchSizes n m = some (obsSpec n m) := optimalBatchSizes_eq_spec hn hm
+
+theorem sum_range_ite (q r : Nat) : ∀ b : Nat,
+    ((List.range b).map fun j => if j < r then q + 1 else q).sum = b * q + min r b := by
+  intro b
+  induction b with
+  | zero => simp
+  | succ b ih =>
+    rw [List.range_succ, List.map_append, List.sum_append, ih, Nat.succ_mul]
+    by_cases h : b < r
+    · simp [h]; omega
+    · simp [h]; omega
+
+/-- the number of batches is ⌈n/m⌉ -/
+theorem optimalBatchSizes_count {n m : Nat} (hn : 0 < n) (hm : 0 < m) :
+    ∃ l, optimalBatchSizes n m = some l ∧ l.length = (n + m - 1) / m := by
+  refine ⟨_, optimalBatchSizes_defined hn hm, ?_⟩
+  simp only [obsSpec, List.length_map, List.length_range, numBatches]
+  have h1 := Nat.div_add_mod n m
+  split
+  · rename_i h
+    have : n + m - 1 = m * (n / m + 1) + (n % m - 1) := by rw [Nat.mul_add]; omega
+    rw [this, Nat.mul_add_div hm]
+    have : (n % m - 1) / m = 0 := Nat.div_eq_of_lt (by have := Nat.mod_lt n hm; omega)
+    omega
+  · rename_i h
+    have h0 : n % m = 0 := by omega
+    have : n + m - 1 = m * (n / m) + (m - 1) := by omega
+    rw [this, Nat.mul_add_div hm]
+    have : (m - 1) / m = 0 := Nat.div_eq_of_lt (by omega)
+    omega
+
+/-- batch sizes sum to the element count -/
+theorem optimalBatchSizes_sum {n m : Nat} (hn : 0 < n) (hm : 0 < m) :
+    ∃ l, optimalBatchSizes n m = some l ∧ l.sum = n := by
+  refine ⟨_, optimalBatchSizes_defined hn hm, ?_⟩
+  have hb := numBatches_pos hn hm
+  simp only [obsSpec]
+  rw [sum_range_ite]
+  have := Nat.div_add_mod n (numBatches n m)
+  have := Nat.mod_lt n hb
+  rw [Nat.min_eq_left (by omega)]
+  omega
+
+theorem numBatches_mul_ge {n m : Nat} (hm : 0 < m) : n ≤ numBatches n m * m := by
+  have h1 := Nat.div_add_mod n m
+  have h2 := Nat.mod_lt n hm
+  unfold numBatches
+  split
+  · rw [Nat.add_mul, Nat.mul_comm (n / m) m]; omega
+  · rw [Nat.mul_comm]; omega
+
+theorem numBatches_le {n m : Nat} (hn : 0 < n) (hm : 0 < m) : numBatches n m ≤ n := by
+  have h1 := Nat.div_add_mod n m
+  unfold numBatches
+  split
+  · rename_i h
+    have hm2 : 2 ≤ m := by
+      apply Classical.byContradiction; intro hc
+      have : m = 1 := by omega
+      subst this
+      simp [Nat.mod_one] at h
+    have : 2 * (n / m) ≤ m * (n / m) := Nat.mul_le_mul_right _ hm2
+    omega
+  · exact Nat.div_le_self n m
+
+/-- every batch size is between 1 and the maximum batch size, and any two differ by at most one -/
+theorem optimalBatchSizes_le_max_balanced {n m : Nat} (hn : 0 < n) (hm : 0 < m) :
+    ∃ l, optimalBatchSizes n m = some l ∧ (∀ s ∈ l, 1 ≤ s ∧ s ≤ m) ∧ (∀ s ∈ l, ∀ t ∈ l, s ≤ t + 1) := by
+  refine ⟨_, optimalBatchSizes_defined hn hm, ?_, ?_⟩
+  · intro s hs
+    have hb := numBatches_pos hn hm
+    have hge := numBatches_mul_ge (n := n) hm
+    have hle := numBatches_le hn hm
+    have hdm := Nat.div_add_mod n (numBatches n m)
+    have hq1 : 1 ≤ n / numBatches n m := (Nat.one_le_div_iff hb).mpr hle
+    simp only [obsSpec, List.mem_map, List.mem_range] at hs
+    obtain ⟨j, _, rfl⟩ := hs
+    have hqm : n / numBatches n m ≤ m := by
+      apply Nat.div_le_of_le_mul
+      exact hge
+    by_cases hr : n % numBatches n m = 0
+    · have : ¬ (j < n % numBatches n m) := by omega
+      simp only [this, if_false]; exact ⟨hq1, hqm⟩
+    · split
+      · refine ⟨by omega, ?_⟩
+        rcases Nat.lt_or_ge (n / numBatches n m) m with h | h
+        · omega
+        · have : numBatches n m * m ≤ numBatches n m * (n / numBatches n m) := Nat.mul_le_mul_left _ h
+          omega
+      · exact ⟨hq1, hqm⟩
+  · intro s hs t ht
+    simp only [obsSpec, List.mem_map, List.mem_range] at hs ht
+    obtain ⟨j, _, rfl⟩ := hs
+    obtain ⟨k, _, rfl⟩ := ht
+    split <;> split <;> omega
+
+/-- what the C++ does for zero elements: either it leaves defined arithmetic (division by zero —
+finding F1, the unrepaired source) or it returns no batch at all (repaired source).  Which of the two
+the current source shows is printed by the check (`generated_optimalBatchSizes_at_zero`). -/
+theorem optimalBatchSizes_zero {m : Nat} (hm : 0 < m) :
+    optimalBatchSizes 0 m = none ∨ optimalBatchSizes 0 m = some [] := by
+  first
+    | (right; simp [optimalBatchSizes]; done)
+    | (left; simp [optimalBatchSizes, cdiv, csub, Nat.ne_of_gt hm]; done)
+
+/-- the copy of the arithmetic inside `createDataFromRange` agrees with `optimalBatchSizes` (n > 0) -/
+theorem rangeBatchSizes_eq {n m : Nat} (hn : 0 < n) (hm : 0 < m) :
+    rangeBatchSizes n m = optimalBatchSizes n m := by
+  rw [optimalBatchSizes_defined hn hm]
+  have hb := numBatches_pos hn hm
+  have h1 := Nat.div_add_mod n m
+  have hq : numBatches n m * (n / numBatches n m) ≤ n := Nat.mul_div_le n _
+  have hr : n - numBatches n m * (n / numBatches n m) = n % numBatches n m := by
+    have := Nat.div_add_mod n (numBatches n m); omega
+  have e1 : (if n > n / m * m then n / m + 1 else n / m) = numBatches n m := by
+    unfold numBatches
+    rw [Nat.mul_comm]
+    by_cases h : 0 < n % m
+    · have : n > m * (n / m) := by omega
+      simp [h, this]
+    · have : ¬ (n > m * (n / m)) := by omega
+      simp [h, this]
+  simp only [rangeBatchSizes, cdiv, Nat.ne_of_gt hm, if_false, Option.bind_eq_bind, Option.bind_some, e1,
+    Nat.ne_of_gt hb, csub, hq, if_true, hr, obsSpec]
+  rfl
+
+/-! ## B. structural operations of `Data` -/
+
+/-- batch sizes always sum to the element count -/
+theorem batch_sizes_sum (d : Data ε) : d.partitioning.sum = d.numberOfElements ∧ d.numberOfElements = d.flat.length :=
+  ⟨rfl, d.numberOfElements_eq⟩
+
+/-- `createDataFromRange`: all elements, in order, in ⌈n/m⌉ balanced batches -/
+theorem createDataFromRange_flat (xs : List ε) (m : Nat) (sh : Shape) (hn : 0 < xs.length) (hm : 0 < m) :
+    ∃ d, createDataFromRange xs m sh = .ok d ∧ d.flat = xs ∧ d.partitioning = obsSpec xs.length m ∧ d.shape = sh := by
+  have hs := optimalBatchSizes_sum hn hm
+  rw [optimalBatchSizes_defined hn hm] at hs
+  obtain ⟨l, hl, hsum⟩ := hs
+  cases hl
+  refine ⟨{ batches := splitBySizes xs (obsSpec xs.length m), shape := sh }, ?_, ?_, ?_, rfl⟩
+  · simp [createDataFromRange, Nat.ne_of_gt hm, rangeBatchSizes_eq hn hm, optimalBatchSizes_defined hn hm, ofOpt,
+      bind, Except.bind, pure, Except.pure]
+  · exact splitBySizes_flatten _ _ hsum
+  · exact splitBySizes_lengths _ _ (Nat.le_of_eq hsum)
+
+/-- `repartition`: same elements in the same order, exactly the requested batch sizes, shape kept -/
+theorem repartition_flat (d d' : Data ε) (sizes : List Nat) (h : d.repartition sizes = .ok d') :
+    d'.flat = d.flat ∧ d'.partitioning = sizes ∧ d'.shape = d.shape := by
+  simp only [Data.repartition, bind_ok, require_ok, pure_ok, decide_eq_true_eq] at h
+  obtain ⟨_, hs, _, _, rfl⟩ := h
+  rw [d.numberOfElements_eq] at hs
+  exact ⟨splitBySizes_flatten _ _ hs, splitBySizes_lengths _ _ (Nat.le_of_eq hs), rfl⟩
+
+/-- `splitBatch`: same elements in the same order -/
+theorem splitBatch_flat (d d' : Data ε) (b k : Nat) (h : d.splitBatch b k = .ok d') :
+    d'.flat = d.flat ∧ d'.shape = d.shape := by
+  simp only [Data.splitBatch, bind_ok, require_ok, ofOpt_ok] at h
+  obtain ⟨src, hsrc, _, _, h⟩ := h
+  split at h
+  · simp only [pure_ok] at h; subst h; exact ⟨rfl, rfl⟩
+  · simp only [pure_ok] at h; subst h
+    refine ⟨?_, rfl⟩
+    have := batch_split d.batches b src hsrc
+    simp only [Data.flat]
+    conv => rhs; rw [this]
+    simp
+    rw [← List.append_assoc, List.take_append_drop]
+
+/-- `splice`: the two parts concatenate to the original; the right part inherits the shape -/
+theorem splice_flat (d l r : Data ε) (b : Nat) (h : d.splice b = .ok (l, r)) :
+    l.flat ++ r.flat = d.flat ∧ l.shape = d.shape ∧ r.shape = d.shape := by
+  simp only [Data.splice, bind_ok, require_ok, pure_ok, Prod.mk.injEq] at h
+  obtain ⟨_, _, rfl, rfl⟩ := h
+  simp [Data.flat, ← List.flatten_append]
+
+theorem append_flat (d o : Data ε) : (d.append o).flat = d.flat ++ o.flat ∧ (d.append o).shape = d.shape := by
+  simp [Data.append, Data.flat]
+
+theorem pushBack_flat (d : Data ε) (b : List ε) : (d.pushBack b).flat = d.flat ++ b := by
+  simp [Data.pushBack, Data.flat]
+
+/-- `transform`: element-wise image, batch structure unchanged -/
+theorem transform_flat (d : Data ε) (f : ε → κ) (sh : Shape) :
+    (d.transform f sh).flat = d.flat.map f ∧ (d.transform f sh).partitioning = d.partitioning := by
+  simp [Data.transform, Data.flat, Data.partitioning, List.map_flatten]
+
+/-- `indexedSubset`: batch j of the result is batch `indices[j]` of the source; shape kept -/
+theorem indexedSubset_batches (d d' : Data ε) (idx : List Nat) (h : d.indexedSubset idx = .ok d') :
+    d'.batches.map some = idx.map (d.batches[·]?) ∧ d'.shape = d.shape := by
+  simp only [Data.indexedSubset, bind_ok, pure_ok] at h
+  obtain ⟨bs, hbs, rfl⟩ := h
+  refine ⟨?_, rfl⟩
+  simp only
+  induction idx generalizing bs with
+  | nil => simp [List.mapM_nil, pure, Except.pure] at hbs; simp [← hbs]
+  | cons i idx ih =>
+    simp only [List.mapM_cons, bind_ok, ofOpt_ok, pure_ok] at hbs
+    obtain ⟨b, hb, bs', hbs', rfl⟩ := hbs
+    simp [hb, ih bs' hbs']
+
+/-- `reorderElements`: new element j is old element `indices[j]`; batch structure and shape kept -/
+theorem reorderElements_flat (d d' : Data ε) (idx : List Nat) (hne : allPos d.partitioning)
+    (h : d.reorderElements idx = .ok d') :
+    d'.flat.map some = (idx.take d.numberOfElements).map (d.flat[·]?) ∧ d'.partitioning = d.partitioning ∧
+      d'.shape = d.shape := by
+  simp only [Data.reorderElements, bind_ok, require_ok, pure_ok, decide_eq_true_eq] at h
+  obtain ⟨_, hlen, picked, hp, rfl⟩ := h
+  have hpick : picked.map some = (idx.take d.numberOfElements).map (d.flat[·]?) ∧
+      picked.length = (idx.take d.numberOfElements).length := by
+    generalize idx.take d.numberOfElements = l at hp
+    clear hlen
+    induction l generalizing picked with
+    | nil => simp [List.mapM_nil, pure, Except.pure] at hp; simp [← hp]
+    | cons i l ih =>
+      simp only [List.mapM_cons, bind_ok, require_ok, ofOpt_ok, pure_ok, decide_eq_true_eq] at hp
+      obtain ⟨x, ⟨_, hi, hx⟩, rest, hrest, rfl⟩ := hp
+      rw [d.numberOfElements_eq] at hi
+      rw [elementAt_eq_flat d hne i hi] at hx
+      simp [hx, ih rest hrest]
+  have hl : d.partitioning.sum = picked.length := by
+    rw [hpick.2, List.length_take]; simp only [Data.numberOfElements] at hlen ⊢; omega
+  refine ⟨?_, splitBySizes_lengths _ _ (Nat.le_of_eq hl), rfl⟩
+  simp only [Data.flat] at hpick ⊢
+  rw [splitBySizes_flatten _ _ hl]; exact hpick.1
+
+/-- with a permutation as index vector (what `shuffle` passes) the multiset of elements is unchanged -/
+theorem reorderElements_perm (d d' : Data ε) (idx : List Nat) (hne : allPos d.partitioning)
+    (hperm : idx.Perm (List.range d.numberOfElements)) (h : d.reorderElements idx = .ok d') :
+    d'.flat.Perm d.flat := by
+  have hlen : idx.length = d.numberOfElements := by simpa using hperm.length_eq
+  have := (reorderElements_flat d d' idx hne h).1
+  rw [← hlen, List.take_length] at this
+  have h2 : (idx.map (d.flat[·]?)).Perm ((List.range d.numberOfElements).map (d.flat[·]?)) := hperm.map _
+  have h3 : (List.range d.numberOfElements).map (d.flat[·]?) = d.flat.map some := by
+    rw [d.numberOfElements_eq]
+    apply List.ext_getElem?
+    intro i
+    by_cases hi : i < d.flat.length
+    · simp [hi]
+    · simp [hi]
+  rw [← this, h3] at h2
+  have := h2.filterMap id
+  simpa [List.filterMap_map] using this
+
+/-! ## C. the element iterator -/
+
+/-- for every partition into non-empty batches: iterating `elements()` forward, indexing with
+`element(i)`, iterating backward from `end()` and reading batch by batch all yield the same sequence -/
+theorem element_eq_iter_eq_batch (d : Data ε) (hne : allPos d.partitioning) :
+    d.container.elementsFwd = d.flat.map some ∧
+    d.container.elementsIdx = d.flat.map some ∧
+    d.container.elementsRev.reverse = d.flat.map some := by
+  have hs := d.sum_partitioning
+  refine ⟨?_, ?_, ?_⟩
+  · have := walkFwd_eq d hne d.flat.length 0 (by omega)
+    rw [canon_zero _ hne] at this
+    simpa [Container.elementsFwd, Data.container, hs] using this
+  · simp only [Container.elementsIdx, Data.container, hs]
+    apply List.ext_getElem?
+    intro i
+    by_cases hi : i < d.flat.length
+    · simp only [List.getElem?_map, List.getElem?_range hi, Option.map_some]
+      have := elementAt_eq_flat d hne i hi
+      simp only [Data.container] at this
+      rw [this, List.getElem?_eq_getElem hi]; rfl
+    · simp [hi]
+  · have := walkRev_eq d hne d.flat.length (Nat.le_refl _)
+    rw [← hs, canon_end] at this
+    simp only [Container.elementsRev, Data.container]
+    rw [hs] at this ⊢
+    simp only [Data.container] at this
+    rw [this]; simp
+
+/-- `++it` and `--it` are inverse to each other on every position, across batch borders -/
+theorem iter_inc_dec_inverse (sizes : List Nat) (hne : allPos sizes) (p : Nat) (hp : p < sizes.sum) :
+    (Iter.increment sizes (canon sizes p)).bind (Iter.decrement sizes) = some (canon sizes p) ∧
+    (Iter.decrement sizes (canon sizes (p + 1))).bind (Iter.increment sizes) = some (canon sizes (p + 1)) := by
+  simp [increment_canon sizes hne p hp, decrement_canon sizes hne p hp]
+
+/-- `begin + i` lands on the canonical (batch, offset) of position i and dereferences to the i-th element -/
+theorem iter_advance_from_begin (d : Data ε) (hne : allPos d.partitioning) (i : Nat) (hi : i < d.flat.length) :
+    d.container.elementAt i = d.flat[i]? := elementAt_eq_flat d hne i hi
+
+/-! ## D. LabeledData: same partitioning, pairs never separated -/
+
+/-- inputs and labels are partitioned identically -/
+def WF (d : LabeledData ι κ) : Prop := d.inputs.partitioning = d.labels.partitioning
+
+/-- the sequence of (input, label) pairs -/
+def pairs (d : LabeledData ι κ) : List (ι × κ) := List.zip d.inputs.flat d.labels.flat
+
+/-- reading labelled batches pairs the i-th input with the i-th label -/
+theorem flat_eq_pairs (d : LabeledData ι κ) (h : WF d) : d.flat = pairs d := by
+  simp only [LabeledData.flat, pairs, Data.flat]
+  exact zip_flatten d.inputs.batches d.labels.batches h
+
+theorem createFromRange_pairs (xs : List ι) (ls : List κ) (m : Nat) (shI shL : Shape) (hlen : xs.length = ls.length)
+    (hn : 0 < xs.length) (hm : 0 < m) :
+    ∃ d, LabeledData.createFromRange xs ls m shI shL = .ok d ∧ WF d ∧ pairs d = List.zip xs ls := by
+  obtain ⟨di, hi, hif, hip, _⟩ := createDataFromRange_flat xs m shI hn hm
+  obtain ⟨dl, hl, hlf, hlp, _⟩ := createDataFromRange_flat ls m shL (hlen ▸ hn) hm
+  refine ⟨⟨di, dl⟩, ?_, ?_, ?_⟩
+  · have : di.numberOfElements = dl.numberOfElements := by
+      rw [di.numberOfElements_eq, dl.numberOfElements_eq, hif, hlf, hlen]
+    simp [LabeledData.createFromRange, hlen, Nat.ne_of_gt hm, hi, hl, bind, Except.bind, LabeledData.mk', this]
+  · simp [WF, hip, hlp, hlen]
+  · simp [pairs, hif, hlf]
+
+theorem repartition_pairs (d d' : LabeledData ι κ) (sizes : List Nat) (h : d.repartition sizes = .ok d') :
+    WF d' ∧ pairs d' = pairs d ∧ d'.partitioning = sizes := by
+  simp only [LabeledData.repartition, bind_ok, pure_ok] at h
+  obtain ⟨i, hi, l, hl, rfl⟩ := h
+  obtain ⟨hif, hip, _⟩ := repartition_flat _ _ _ hi
+  obtain ⟨hlf, hlp, _⟩ := repartition_flat _ _ _ hl
+  exact ⟨by simp [WF, hip, hlp], by simp [pairs, hif, hlf], hip⟩
+
+theorem splitBatch_pairs (d d' : LabeledData ι κ) (b k : Nat) (h : d.splitBatch b k = .ok d') :
+    pairs d' = pairs d := by
+  simp only [LabeledData.splitBatch, bind_ok, pure_ok] at h
+  obtain ⟨i, hi, l, hl, rfl⟩ := h
+  simp [pairs, (splitBatch_flat _ _ _ _ hi).1, (splitBatch_flat _ _ _ _ hl).1]
+
+theorem append_pairs (d o : LabeledData ι κ) (hd : WF d) : pairs (d.append o) = pairs d ++ pairs o := by
+  have hlen : d.inputs.flat.length = d.labels.flat.length := by
+    rw [← Data.numberOfElements_eq, ← Data.numberOfElements_eq]
+    simp only [Data.numberOfElements]; rw [hd]
+  simp only [pairs, LabeledData.append, (append_flat _ _).1]
+  exact List.zip_append hlen
+
+/-- `reorderElements` / `shuffle` move inputs and labels by the same index vector: pair j of the result
+is pair `indices[j]` of the source -/
+theorem reorderElements_pairs (d d' : LabeledData ι κ) (idx : List Nat) (hd : WF d)
+    (hne : allPos d.inputs.partitioning) (h : d.reorderElements idx = .ok d') :
+    WF d' ∧ (pairs d').map some = (idx.take d.numberOfElements).map ((pairs d)[·]?) := by
+  simp only [LabeledData.reorderElements, bind_ok, pure_ok] at h
+  obtain ⟨i, hi, l, hl, rfl⟩ := h
+  obtain ⟨hif, hip, _⟩ := reorderElements_flat _ _ _ hne hi
+  obtain ⟨hlf, hlp, _⟩ := reorderElements_flat _ _ _ (hd ▸ hne) hl
+  have hn : d.labels.numberOfElements = d.inputs.numberOfElements := by
+    simp only [Data.numberOfElements]; rw [hd]
+  refine ⟨by show i.partitioning = l.partitioning; rw [hip, hlp]; exact hd, ?_⟩
+  simp only [pairs, LabeledData.numberOfElements]
+  rw [hn] at hlf
+  generalize idx.take d.inputs.numberOfElements = l' at hif hlf
+  apply List.ext_getElem?
+  intro j
+  have h1 := congrArg (·[j]?) hif
+  have h2 := congrArg (·[j]?) hlf
+  simp only [List.getElem?_map, getElem?_zip_bind] at h1 h2 ⊢
+  cases hlj : l'[j]? with
+  | none =>
+    simp only [hlj, Option.map_none, Option.map_eq_none_iff] at h1 h2 ⊢
+    simp [h1]
+  | some x =>
+    simp only [hlj, Option.map_some] at h1 h2 ⊢
+    cases ha : i.flat[j]? <;> cases hb : l.flat[j]? <;> cases hA : d.inputs.flat[x]? <;>
+      cases hB : d.labels.flat[x]? <;> simp_all
+
+/-! ## E. arbitrary operation histories -/
+
+/-- how `splitBatch b k` changes a partitioning -/
+def splitPart (P : List Nat) (b k : Nat) : List Nat :=
+  match P[b]? with
+  | some s => if k = 0 ∨ k = s then P else P.take b ++ [k, s - k] ++ P.drop (b + 1)
+  | none => P
+
+theorem splitBatch_partitioning (d d' : Data ε) (b k : Nat) (h : d.splitBatch b k = .ok d') :
+    d'.partitioning = splitPart d.partitioning b k ∧ (∀ s, d.partitioning[b]? = some s → k ≤ s) := by
+  simp only [Data.splitBatch, bind_ok, require_ok, ofOpt_ok, decide_eq_true_eq] at h
+  obtain ⟨src, hsrc, _, hk, h⟩ := h
+  have hp : d.partitioning[b]? = some src.length := by simp [Data.partitioning, hsrc]
+  refine ⟨?_, fun s hs => by rw [hp] at hs; cases hs; exact hk⟩
+  simp only [splitPart, hp]
+  split at h
+  · rename_i hc; simp only [pure_ok] at h; subst h; simp [hc]
+  · rename_i hc; simp only [pure_ok] at h; subst h
+    simp [hc, Data.partitioning, List.map_take, List.map_drop, List.length_take, List.length_drop]
+    omega
+
+theorem allPos_splitPart (P : List Nat) (b k : Nat) (hP : allPos P) (hk : ∀ s, P[b]? = some s → k ≤ s) :
+    allPos (splitPart P b k) := by
+  unfold splitPart
+  cases hb : P[b]? with
+  | none => simpa using hP
+  | some s =>
+    simp only
+    split
+    · exact hP
+    · rename_i hc
+      have := hk s hb
+      intro x hx
+      simp only [List.mem_append, List.mem_cons, List.not_mem_nil, or_false] at hx
+      rcases hx with (hx | hx | hx) | hx
+      · exact hP x (List.mem_of_mem_take hx)
+      · omega
+      · omega
+      · exact hP x (List.mem_of_mem_drop hx)
+
+/-- the structure-changing operations a client can apply to one labelled dataset -/
+inductive Op where
+  | repartition (sizes : List Nat)
+  | splitBatch (b k : Nat)
+  | reorder (idx : List Nat)        -- reorderElements / shuffle (idx = the permutation drawn)
+
+def Op.apply (d : LabeledData ι κ) : Op → R (LabeledData ι κ)
+  | .repartition sizes => d.repartition sizes
+  | .splitBatch b k => d.splitBatch b k
+  | .reorder idx => d.reorderElements idx
+
+/-- `reorder` is given a permutation of the element indices (what `shuffle` draws); the other
+preconditions are checked by the model itself (`.ok`) -/
+def Op.valid (d : LabeledData ι κ) : Op → Prop
+  | .reorder idx => idx.Perm (List.range d.numberOfElements)
+  | _ => True
+
+/-- `Reach d d'`: d' is obtained from d by some finite history of valid, successful operations -/
+inductive Reach : LabeledData ι κ → LabeledData ι κ → Prop where
+  | refl (d : LabeledData ι κ) : Reach d d
+  | step {d d' d'' : LabeledData ι κ} (op : Op) : Reach d d' → op.valid d' → op.apply d' = .ok d'' → Reach d d''
+
+/-- invariant of the history theorem -/
+def Inv (d : LabeledData ι κ) : Prop := WF d ∧ allPos d.inputs.partitioning
+
+theorem step_preserves (d d' : LabeledData ι κ) (op : Op) (hinv : Inv d) (hv : op.valid d) (h : op.apply d = .ok d') :
+    Inv d' ∧ (pairs d').Perm (pairs d) := by
+  obtain ⟨hwf, hne⟩ := hinv
+  cases op with
+  | repartition sizes =>
+    have h' := h
+    simp only [Op.apply, LabeledData.repartition, bind_ok, pure_ok] at h'
+    obtain ⟨i, hi, l, _, rfl⟩ := h'
+    obtain ⟨hw, hp, hs⟩ := repartition_pairs d _ sizes h
+    simp only [Data.repartition, bind_ok, require_ok, pure_ok, Bool.and_eq_true] at hi
+    obtain ⟨_, _, _, ⟨_, hall⟩, _⟩ := hi
+    refine ⟨⟨hw, ?_⟩, by rw [hp]⟩
+    have : LabeledData.partitioning (⟨i, l⟩ : LabeledData ι κ) = sizes := hs
+    simp only [LabeledData.partitioning] at this
+    rw [this]; exact allPos_of_all sizes hall
+  | splitBatch b k =>
+    have hp := splitBatch_pairs d d' b k h
+    simp only [Op.apply, LabeledData.splitBatch, bind_ok, pure_ok] at h
+    obtain ⟨i, hi, l, hl, rfl⟩ := h
+    obtain ⟨hip, hik⟩ := splitBatch_partitioning _ _ _ _ hi
+    obtain ⟨hlp, _⟩ := splitBatch_partitioning _ _ _ _ hl
+    refine ⟨⟨?_, ?_⟩, by rw [hp]⟩
+    · show i.partitioning = l.partitioning
+      rw [hip, hlp, hwf]
+    · show allPos i.partitioning
+      rw [hip]; exact allPos_splitPart _ _ _ hne hik
+  | reorder idx =>
+    obtain ⟨hw, hp⟩ := reorderElements_pairs d d' idx hwf hne h
+    have h' := h
+    simp only [Op.apply, LabeledData.reorderElements, bind_ok, pure_ok] at h'
+    obtain ⟨i, hi, l, _, rfl⟩ := h'
+    obtain ⟨_, hip, _⟩ := reorderElements_flat _ _ _ hne hi
+    refine ⟨⟨hw, by show allPos i.partitioning; rw [hip]; exact hne⟩, ?_⟩
+    have hv' : idx.Perm (List.range d.numberOfElements) := hv
+    have hlen : idx.length = d.numberOfElements := by simpa using hv'.length_eq
+    rw [← hlen, List.take_length] at hp
+    have hpl : (pairs d).length = d.numberOfElements := by
+      have hlen2 : d.inputs.flat.length = d.labels.flat.length := by
+        rw [← Data.numberOfElements_eq, ← Data.numberOfElements_eq]
+        simp only [Data.numberOfElements]; rw [hwf]
+      simp [pairs, LabeledData.numberOfElements, d.inputs.numberOfElements_eq, hlen2]
+    have h2 : (idx.map ((pairs d)[·]?)).Perm ((List.range d.numberOfElements).map ((pairs d)[·]?)) := hv'.map _
+    have h3 : (List.range d.numberOfElements).map ((pairs d)[·]?) = (pairs d).map some := by
+      rw [← hpl]
+      apply List.ext_getElem?
+      intro j
+      by_cases hj : j < (pairs d).length
+      · simp [hj]
+      · simp [hj]
+    rw [← hp, h3] at h2
+    have := h2.filterMap id
+    simpa [List.filterMap_map] using this
+
+/-- **every finite history** of repartition / splitBatch / reorderElements / shuffle operations on a
+well-formed labelled dataset with non-empty batches leaves the multiset of (input, label) pairs
+unchanged, keeps inputs and labels in the same partitioning and keeps all batches non-empty -/
+theorem ops_preserve_multiset (d d' : LabeledData ι κ) (hinv : Inv d) (h : Reach d d') :
+    Inv d' ∧ (pairs d').Perm (pairs d) := by
+  induction h with
+  | refl => exact ⟨hinv, List.Perm.refl _⟩
+  | step op _ hv ha ih =>
+    obtain ⟨hi, hp⟩ := ih
+    obtain ⟨hi', hp'⟩ := step_preserves _ _ op hi hv ha
+    exact ⟨hi', hp'.trans hp⟩
+
+/-- … and in every reachable state the access paths agree and the batch sizes sum to the element count -/
+theorem reachable_access_paths (d d' : LabeledData ι κ) (hinv : Inv d) (h : Reach d d') :
+    d'.inputs.container.elementsFwd = d'.inputs.flat.map some ∧
+    d'.inputs.container.elementsIdx = d'.inputs.flat.map some ∧
+    d'.inputs.container.elementsRev.reverse = d'.inputs.flat.map some ∧
+    d'.inputs.partitioning.sum = d'.inputs.flat.length := by
+  obtain ⟨⟨_, hne⟩, _⟩ := ops_preserve_multiset d d' hinv h
+  obtain ⟨h1, h2, h3⟩ := element_eq_iter_eq_batch d'.inputs hne
+  exact ⟨h1, h2, h3, d'.inputs.sum_partitioning⟩
+
+/-! ## non-vacuity -/
+example : optimalBatchSizes 10 4 = some [4, 3, 3] := by decide
+example : createDataFromRange [1, 2, 3, 4, 5] 2 [] = .ok (⟨[[1, 2], [3, 4], [5]], []⟩ : Data Nat) := by rfl
+example : (⟨[[1, 2], [3]], []⟩ : Data Nat).repartition [1, 2] = .ok ⟨[[1], [2, 3]], []⟩ := by rfl
+example : (⟨[[1, 2], [3]], []⟩ : Data Nat).splitBatch 0 1 = .ok ⟨[[1], [2], [3]], []⟩ := by rfl
+example : (⟨[[1, 2], [3]], []⟩ : Data Nat).reorderElements [2, 0, 1] = .ok ⟨[[3, 1], [2]], []⟩ := by rfl
+example : allPos (⟨[[1, 2], [3]], []⟩ : Data Nat).partitioning := by intro s hs; simp [Data.partitioning] at hs; omega
+example : Inv (⟨⟨[[1, 2], [3]], []⟩, ⟨[[7, 8], [9]], []⟩⟩ : LabeledData Nat Nat) :=
+  ⟨rfl, by intro s hs; simp [Data.partitioning] at hs; omega⟩
+example : Reach (⟨⟨[[1, 2], [3]], []⟩, ⟨[[7, 8], [9]], []⟩⟩ : LabeledData Nat Nat)
+    ⟨⟨[[3], [1, 2]], []⟩, ⟨[[9], [7, 8]], []⟩⟩ :=
+  .step (d' := ⟨⟨[[1], [2, 3]], []⟩, ⟨[[7], [8, 9]], []⟩⟩) (.reorder [2, 0, 1])
+    (.step (d' := ⟨⟨[[1, 2], [3]], []⟩, ⟨[[7, 8], [9]], []⟩⟩) (.repartition [1, 2]) (.refl _) trivial (by rfl))
+    (by show [2, 0, 1].Perm (List.range 3); decide) (by rfl)
 
 end SharkVerif.C03
